@@ -16,7 +16,7 @@ func init() {
 	Registry["C02"] = c02
 	Metas["C02"] = Meta{Level: "other", NeedCG: true,
 		Technique: "static analysis: struct-field vs hash-map coverage tables, edge-dominance of every header-commitment check on all success paths of the block verifier, validate-before-vote/lock/finalize dominance, VerifyCommit guard list",
-		Explain: "Static analysis of block validation. Decided: (R1) Header.Hash covers every Header field except the documented Extra, each under a distinct key; (R2) on every success path of the installed block verifier (pbft ValidateBlock -> ValidateBasic, ValidateCommit, HasAddress, VerifyCommit) each header commitment {ChainID, Height, NumTxs, LastBlockID, LastCommitHash, DataHash, ValidatorsHash, AppHash, ReceiptsHash, ProposerAddress} has been compared with what it commits to (Time and Extra exempt, with reason); (R3) ValidateBlock dominates the proposal prevote, the lock and SaveBlock/ApplyBlock, and ExecBlock starts with validation; (R4) VerifyCommit's guard list; (R5) the LastCommit is verified against LastValidators with the state's chain id, block id and height-1 on every success path for height>1; MakeCommit gating. NOT decided: that the compared hashes are collision-free, signature arithmetic, behaviour over schedules.",
+		Explain: "Static analysis of block validation. Decided: (R1) Header.Hash covers every Header field except the documented Extra, each under a distinct key; (R2) on every success path of the installed block verifier (pbft ValidateBlock -> ValidateBasic, ValidateCommit, HasAddress, VerifyCommit) each header commitment {ChainID, Height, NumTxs, LastBlockID, LastCommitHash, DataHash, ValidatorsHash, AppHash, ReceiptsHash, ProposerAddress} has been compared with what it commits to (Time and Extra exempt, with reason); (R3) ValidateBlock dominates the proposal prevote, the lock and SaveBlock/ApplyBlock, and ExecBlock starts with validation; (R4) VerifyCommit's guard list; (R5) the LastCommit is verified against LastValidators with the state's chain id, block id and height-1 on every success path for height>1; MakeCommit gating. (R6/R7) every +2/3 threshold in the node is the strict 3x>2T predicate and every tally counts a validator once (shared with C01/C15). NOT decided: that the compared hashes are collision-free, signature arithmetic, behaviour over schedules.",
 		Assume: []string{"merkle/SimpleHash and wire.BinaryHash are collision-resistant encodings of their inputs", "go-crypto VerifyBytes is sound"},
 	}
 }
@@ -27,6 +27,9 @@ func c02(c *Ctx) {
 	c02R3(c)
 	verifyCommitRule(c, "R4")
 	c15R6rule(c, "R5")
+	// "more than two thirds of that height's voting power": the threshold predicate and once-per-validator tallies
+	quorumRule(c, "R6")
+	tallyRule(c, "R7")
 }
 
 func c15R6rule(c *Ctx, id string) {
